@@ -4,8 +4,8 @@
    order, the list of consecutive pairs of strictly increasing borders lo < b1 < ... < hi whose interior
    points are Enc(k, r) for any key k over the alphabet and any revision r (in a well-formed store every
    stored key has that form). *)
-From KB Require Import Base.Cases Model.Coder Model.ReadSys Model.C03Cases Model.C13Cases
-  Proofs.Coder Proofs.ReadSys Proofs.ReadSysSnap Proofs.ReadSysThm Proofs.ReadSysSpec Proofs.ReadSysPart Proofs.ReadSysC13 Proofs.ReadSysC13b.
+From KB Require Import Base.Cases Model.Coder Model.ReadSys Model.C03Cases Model.C13Cases Model.ReadValid Model.ReadRetry
+  Proofs.Coder Proofs.ReadSys Proofs.ReadSysSnap Proofs.ReadSysThm Proofs.ReadSysSpec Proofs.ReadSysPart Proofs.ReadSysC13 Proofs.ReadSysC13b Proofs.ReadSysC03b Proofs.ReadValid Proofs.ReadRetry.
 Local Open Scope N_scope.
 
 (* fold splitting: the worker loop over X ++ Y is the two runs concatenated when no key occurs on both sides *)
@@ -151,6 +151,53 @@ Theorem C13_oracle_sound : forall c, c13_valid c -> c13_check c = true -> c13_or
 Proof. exact c13_oracle_sound. Qed.
 Print Assumptions C13_oracle_sound.
 
+(* validity is decidable, and it is what every shard evaluates: the shards' check function is c13_check_valid
+   (= c13_check && c13_validb), so every evaluated case is covered by C13_oracle_sound *)
+Theorem C13_validb_sound : forall c, c13_validb c = true -> c13_valid c.
+Proof. exact c13_validb_spec. Qed.
+Print Assumptions C13_validb_sound.
+
+Theorem C13_tilingb_sound : forall ps lo hi, tilingb ps lo hi = true -> tiling ps lo hi.
+Proof. exact tilingb_spec. Qed.
+Print Assumptions C13_tilingb_sound.
+
+Theorem C13_check_valid_sound : forall c, c13_check_valid c = true -> c13_oracle c = None.
+Proof. exact c13_check_valid_sound. Qed.
+Print Assumptions C13_check_valid_sound.
+
+(* ---------- iterator failures: runWithBackoffRetry (the scan-fault case of the driver) ----------
+   Model/ReadRetry.v: an attempt whose iterator fails after n records leaves a partially filled receiver; the next
+   attempt runs on the same receiver and starts with reset(); at most three attempts.  Hypothesis made explicit:
+   fail_clean — what a failed attempt left behind is cleared by reset. *)
+Theorem C13_retry_fault_free : forall R recs rc, fail_clean R recs rc -> forall faults steps rc', rcv_reset rc' = rcv_reset rc ->
+  (length faults < steps)%nat -> retry_from R recs rc' faults steps = Some (worker_run R recs rc).
+Proof. exact retry_fault_free. Qed.
+Print Assumptions C13_retry_fault_free.
+
+(* for the receivers of List and Count the hypothesis always holds *)
+Theorem C13_retry_list_count : forall R recs rc faults, nonstream rc -> (length faults < backoff_steps)%nat ->
+  retry_run R recs rc faults = Some (worker_run R recs rc).
+Proof. exact retry_nonstream. Qed.
+Print Assumptions C13_retry_list_count.
+
+(* hence the whole scan with retried workers is the fault-free scan of the model (unlimited List, Count) *)
+Theorem C13_scan_retry : forall s fv parts start end_ R rc faults, nonstream rc ->
+  (forall p, (length (faults p) < backoff_steps)%nat) ->
+  scan_retry s fv parts start end_ R rc faults = SrRes (scan s fv parts start end_ R rc).
+Proof. exact scan_retry_nonstream. Qed.
+Print Assumptions C13_scan_retry.
+
+(* a stream keeps what it already sent: the retried worker equals the fault-free one when no failed attempt had
+   sent a batch; guaranteed when the partition holds fewer records than one batch *)
+Theorem C13_retry_stream : forall R recs rr faults, fail_clean R recs (RStream rr [] []) -> (length faults < backoff_steps)%nat ->
+  retry_run R recs (RStream rr [] []) faults = Some (worker_run R recs (RStream rr [] [])).
+Proof. exact retry_stream. Qed.
+Print Assumptions C13_retry_stream.
+
+Theorem C13_retry_stream_small : forall R recs rr, (length recs < stream_batch)%nat -> fail_clean R recs (RStream rr [] []).
+Proof. exact small_stream_fail_clean. Qed.
+Print Assumptions C13_retry_stream_small.
+
 (* ---------- the sort in GetPartitions is needed (former finding C13-F1, fixed) ----------
    advertised_keys applied to the engine's list as given — what GetPartitions did before the fix — yields
    keys that are not ascending when the engine lists its partitions out of key order *)
@@ -228,6 +275,9 @@ Definition ex_case : c13_case := mk_c13 [99] (raw_of ex_store13) 106 [mk_tiling 
 Lemma single_tiling lo hi : bcmp lo hi = Lt -> tiling [(lo, hi)] lo hi.
 Proof. intros L. exists [hi]. split; [discriminate|]. split; [apply Permutation_refl|]. repeat split; [exact L|constructor]. Qed.
 
+Example C13_check_valid_inhabited : c13_check_valid ex_case = true.
+Proof. vm_compute. reflexivity. Qed.
+
 Example C13_oracle_sound_inhabited : c13_valid ex_case /\ c13_check ex_case = true /\ c13_oracle ex_case = None.
 Proof.
   split; [|split; vm_compute; reflexivity].
@@ -238,3 +288,25 @@ Proof.
   - intros p Hp. vm_compute in Hp.
     destruct Hp as [<-|[<-|[<-|[]]]]; right; apply single_tiling; vm_compute; reflexivity.
 Qed.
+
+(* retries: two failed attempts (after 2 and after 5 records), then success — same result as without faults;
+   three failures exhaust the back-off *)
+Example C13_retry_example :
+  let recs := iter (raw_of ex_store13) (encode [47; 114; 47] 0) (encode [47; 114; 48] 0) in
+  retry_run 106 recs (RCommon 0 []) [2%nat; 5%nat] = Some (worker_run 106 recs (RCommon 0 [])) /\
+  retry_run 106 recs (RStream 106 [] []) [2%nat; 5%nat] = Some (worker_run 106 recs (RStream 106 [] [])) /\
+  retry_run 106 recs RCount [1%nat; 1%nat; 1%nat] = None.
+Proof. repeat split; vm_compute; reflexivity. Qed.
+
+(* the hypothesis on streams is needed: 301 keys, the iterator fails after all 602 records (a batch of 300 is
+   already on the channel), the retry sends it again *)
+Definition many_key (i : nat) : bytes := [47; 114; 47; 107; 48 + N.of_nat (i / 100); 48 + N.of_nat ((i / 10) mod 10); 48 + N.of_nat (i mod 10)].
+Definition many_store : raw_store :=
+  flat_map (fun i => [(encode (many_key i) 0, be64 7); (encode (many_key i) 7, [120])]) (seq 0 301).
+
+Example C13_retry_stream_hypothesis_needed :
+  match retry_run 9 many_store (RStream 9 [] []) [602%nat], worker_run 9 many_store (RStream 9 [] []) with
+  | Some (WROk _ rc1), WROk _ rc2 => (length (rcv_sent rc1) =? 3)%nat && (length (rcv_sent rc2) =? 2)%nat
+  | _, _ => false
+  end = true.
+Proof. vm_compute. reflexivity. Qed.
